@@ -393,6 +393,33 @@ impl Sim {
 		Ok(())
 	}
 
+	/// Was the peer's fulfil of an HTLC with this payment hash, delivered to `node`, followed by a
+	/// commitment_signed of the same channel delivered to `node` before step `before`? Only then can `node`'s
+	/// monitor ever have stored the preimage (it arrives with the holder commitment update).
+	pub fn fulfil_committed_before(&self, node: usize, hash: &[u8; 32], before: u64) -> bool {
+		use bitcoin::hashes::{sha256, Hash};
+		let mut fulfilled: Vec<(lightning::ln::types::ChannelId, u64)> = vec![];
+		for (s, e) in self.log.iter() {
+			if *s >= before {
+				break;
+			}
+			match e {
+				SEvent::Deliver { to, wire: Wire::Fulfill(m), .. } if *to == node => {
+					if sha256::Hash::hash(&m.payment_preimage.0).to_byte_array() == *hash {
+						fulfilled.push((m.channel_id, *s));
+					}
+				},
+				SEvent::Deliver { to, wire: Wire::Commit(m), .. } if *to == node => {
+					if fulfilled.iter().any(|(c, fs)| *c == m.channel_id && *fs < *s) {
+						return true;
+					}
+				},
+				_ => {},
+			}
+		}
+		false
+	}
+
 	/// Amounts below this may have no output on a commitment transaction (dust limit plus HTLC transaction fee
 	/// at twice the highest current feerate estimate): such an HTLC is forfeited when its channel closes on chain.
 	pub fn dust_floor_msat(&self) -> u64 {
